@@ -54,22 +54,33 @@ func genLogin(t *rapid.T) c10.Case {
 		c.LogLevel = "debug"
 	}
 
+	if rapid.IntRange(0, 2).Draw(t, "writeFault") == 0 {
+		// the transport starts failing writes at a generated point of the dialogue, possibly on
+		// the very write that carries a credential
+		k := rapid.IntRange(0, 6).Draw(t, "writeFailAfter")
+		c.WriteFailAfter = &k
+	}
+
 	return c
 }
 
 func runLogin(c c10.Case) ev.Verdict {
 	r := c10.Run(c)
-	if !r.Verdict.OK {
-		// the login property itself is C10's business; a failing dialogue says nothing here
-		return ev.Verdict{OK: true, Infeasible: true, Classes: []string{"c10-failed"}, Note: r.Verdict.Msg}
-	}
-
 	sinks := map[string][]string{"logger": r.Logs, "channel-log": {r.ChanLog}}
 
 	for kind, s := range map[string]string{"password": c.Password, "passphrase": c.Passphrase} {
 		if l := leak(s, sinks); l != "" {
 			return ev.Fail("the %s leaked into %s", kind, l)
 		}
+	}
+
+	if c.WriteFailAfter != nil {
+		return ev.Verdict{OK: true, NonTrivial: true, Classes: []string{"write-fault", "level=" + c.LogLevel}}
+	}
+
+	if !r.Verdict.OK {
+		// the login property itself is C10's business; a failing dialogue says nothing more here
+		return ev.Verdict{OK: true, Infeasible: true, Classes: []string{"c10-failed"}, Note: r.Verdict.Msg}
 	}
 
 	sentSecret := r.Sent["password"]+r.Sent["passphrase"] > 0
@@ -102,6 +113,9 @@ type EscCase struct {
 	Plan        []int  `json:"plan"`
 	ReadDelayNS int64  `json:"read_delay_ns"`
 	Op          string `json:"op"` // acquire, command, configs
+	// WriteFailAfter >= 0: after the session is open the transport fails every write after that
+	// many more succeeded.
+	WriteFailAfter int `json:"write_fail_after"`
 }
 
 func genEsc(t *rapid.T) EscCase {
@@ -113,6 +127,8 @@ func genEsc(t *rapid.T) EscCase {
 		Plan:        sim.GenCutPlan(t),
 		ReadDelayNS: int64(rapid.SampledFrom([]time.Duration{20 * time.Microsecond, 250 * time.Microsecond}).Draw(t, "readDelay")),
 		Op:          rapid.SampledFrom([]string{"acquire", "command", "configs"}).Draw(t, "op"),
+
+		WriteFailAfter: rapid.SampledFrom([]int{-1, -1, -1, 0, 1, 2, 3, 4, 5, 6}).Draw(t, "writeFailAfter"),
 	}
 }
 
@@ -243,6 +259,18 @@ func runEsc(c EscCase) ev.Verdict {
 	defer pipe.Release()
 	defer func() { _ = d.Close() }()
 
+	if c.WriteFailAfter >= 0 {
+		n := 0
+
+		for _, e := range pipe.Events() {
+			if e.Kind == "w" {
+				n++
+			}
+		}
+
+		pipe.WriteFailAfter = n + c.WriteFailAfter
+	}
+
 	switch c.Op {
 	case "acquire":
 		_ = d.AcquirePriv("enable")
@@ -257,6 +285,13 @@ func runEsc(c EscCase) ev.Verdict {
 	}
 
 	v := ev.Verdict{OK: true, Classes: []string{"behaviour=" + c.Behaviour, "level=" + c.LogLevel}}
+
+	if c.WriteFailAfter >= 0 {
+		v.NonTrivial = true
+		v.Classes = append(v.Classes, "write-fault")
+
+		return v
+	}
 
 	if secretsSeen > 0 && c.LogLevel == "debug" {
 		joined := strings.Join(col.sinks()["logger"], "\n")
@@ -280,6 +315,8 @@ type OnOpenCase struct {
 	Visible  string `json:"visible"`
 	LogLevel string `json:"log_level"`
 	Network  bool   `json:"network"` // network-on-open vs generic on-open
+	// WriteFailAfter >= 0: the transport fails every write after that many succeeded.
+	WriteFailAfter int `json:"write_fail_after"`
 }
 
 func genOnOpen(t *rapid.T) OnOpenCase {
@@ -288,6 +325,8 @@ func genOnOpen(t *rapid.T) OnOpenCase {
 		Visible:  "terminal length 0 Q",
 		LogLevel: rapid.SampledFrom([]string{"debug", "debug", "info"}).Draw(t, "level"),
 		Network:  rapid.Bool().Draw(t, "network"),
+
+		WriteFailAfter: rapid.SampledFrom([]int{-1, -1, 0, 1, 2, 3}).Draw(t, "writeFailAfter"),
 	}
 }
 
@@ -344,6 +383,7 @@ default:
 	}
 
 	pipe := sim.NewPipe(dev)
+	pipe.WriteFailAfter = c.WriteFailAfter
 
 	p, err := platform.NewPlatform([]byte(def), "sim",
 		options.WithCustomTransport(pipe),
@@ -365,7 +405,7 @@ default:
 			return ev.Fail("GetNetworkDriver: %v", derr)
 		}
 
-		if err = d.Open(); err != nil {
+		if err = d.Open(); err != nil && c.WriteFailAfter < 0 {
 			return ev.Fail("Open: %v", err)
 		}
 
@@ -378,13 +418,21 @@ default:
 			return ev.Fail("GetGenericDriver: %v", derr)
 		}
 
-		if err = d.Open(); err != nil {
+		if err = d.Open(); err != nil && c.WriteFailAfter < 0 {
 			return ev.Fail("Open: %v", err)
 		}
 
 		time.Sleep(5 * time.Millisecond)
 
 		_ = d.Close()
+	}
+
+	if c.WriteFailAfter >= 0 {
+		if l := leak(c.Secret, col.sinks()); l != "" {
+			return ev.Fail("the redacted on-open input leaked into %s (transport write failure after %d writes)", l, c.WriteFailAfter)
+		}
+
+		return ev.Verdict{OK: true, NonTrivial: true, Classes: []string{"write-fault", "level=" + c.LogLevel}}
 	}
 
 	lines := dev.LineStrings()
